@@ -154,6 +154,14 @@ pub fn c17(ctx: &mut Ctx) {
         }
     }
 
+    // ---- H1': adjacent calls on operands that collide under a weak key ---------------------
+    // State keyed on something coarse (a 32-bit hash of a string, its length, its ends) changes a
+    // result only when two *different* operands with the same key follow each other on one thread.
+    // Random histories meet such a pair with probability 2^-32; here the pairs are computed.
+    if !small {
+        weak_key_histories(ctx);
+    }
+
     // ---- H1 + H2 + H3: randomised histories ----------------------------------------------
     let n = if small { 40 } else { ctx.budget(30_000, 2_000_000) };
     let mut prev_rule: Option<usize> = None;
@@ -353,4 +361,146 @@ fn jsonlogic_rs_apply_catching(r: &Value, d: &Value) -> Option<Result<Value, Str
         Ok(Err(_e)) => Some(Err(String::new())),
         Err(_) => None,
     }
+}
+
+type Hash32 = (&'static str, fn(&[u8]) -> u32);
+
+fn weak_hashes() -> Vec<Hash32> {
+    fn fnv1a(b: &[u8]) -> u32 { b.iter().fold(0x811c_9dc5u32, |h, c| (h ^ *c as u32).wrapping_mul(0x0100_0193)) }
+    fn fnv1(b: &[u8]) -> u32 { b.iter().fold(0x811c_9dc5u32, |h, c| h.wrapping_mul(0x0100_0193) ^ *c as u32) }
+    fn djb2(b: &[u8]) -> u32 { b.iter().fold(5381u32, |h, c| h.wrapping_mul(33).wrapping_add(*c as u32)) }
+    fn djb2x(b: &[u8]) -> u32 { b.iter().fold(5381u32, |h, c| h.wrapping_mul(33) ^ *c as u32) }
+    fn sdbm(b: &[u8]) -> u32 { b.iter().fold(0u32, |h, c| (*c as u32).wrapping_add(h << 6).wrapping_add(h << 16).wrapping_sub(h)) }
+    fn java31(b: &[u8]) -> u32 { b.iter().fold(0u32, |h, c| h.wrapping_mul(31).wrapping_add(*c as u32)) }
+    fn adler(b: &[u8]) -> u32 {
+        let (mut a, mut s) = (1u32, 0u32);
+        for c in b {
+            a = (a + *c as u32) % 65521;
+            s = (s + a) % 65521;
+        }
+        (s << 16) | a
+    }
+    fn crc32(b: &[u8]) -> u32 {
+        let mut crc = 0xFFFF_FFFFu32;
+        for c in b {
+            crc ^= *c as u32;
+            for _ in 0..8 {
+                crc = if crc & 1 == 1 { (crc >> 1) ^ 0xEDB8_8320 } else { crc >> 1 };
+            }
+        }
+        !crc
+    }
+    fn murmur_fin(b: &[u8]) -> u32 {
+        // multiply-rotate word hash (MurmurHash3 x86_32, seed 0)
+        let (c1, c2) = (0xcc9e_2d51u32, 0x1b87_3593u32);
+        let mut h = 0u32;
+        let mut chunks = b.chunks_exact(4);
+        for ch in &mut chunks {
+            let mut k = u32::from_le_bytes([ch[0], ch[1], ch[2], ch[3]]);
+            k = k.wrapping_mul(c1).rotate_left(15).wrapping_mul(c2);
+            h = (h ^ k).rotate_left(13).wrapping_mul(5).wrapping_add(0xe654_6b64);
+        }
+        let rem = chunks.remainder();
+        let mut k = 0u32;
+        for (i, c) in rem.iter().enumerate() {
+            k |= (*c as u32) << (8 * i);
+        }
+        if !rem.is_empty() {
+            h ^= k.wrapping_mul(c1).rotate_left(15).wrapping_mul(c2);
+        }
+        h ^= b.len() as u32;
+        h ^= h >> 16;
+        h = h.wrapping_mul(0x85eb_ca6b);
+        h ^= h >> 13;
+        h = h.wrapping_mul(0xc2b2_ae35);
+        h ^ (h >> 16)
+    }
+    fn sum(b: &[u8]) -> u32 { b.iter().fold(0u32, |h, c| h.wrapping_add(*c as u32)) }
+    fn xor(b: &[u8]) -> u32 { b.iter().fold(0u32, |h, c| h ^ *c as u32) }
+    fn ends(b: &[u8]) -> u32 {
+        // the first and last four bytes only
+        let n = b.len();
+        let mut h = 0u32;
+        for c in b[..4.min(n)].iter().chain(b[n.saturating_sub(4)..].iter()) {
+            h = h.wrapping_mul(257).wrapping_add(*c as u32);
+        }
+        h
+    }
+    vec![("fnv1a-32", fnv1a), ("fnv1-32", fnv1), ("djb2", djb2), ("djb2-xor", djb2x), ("sdbm", sdbm), ("x31", java31), ("adler-32", adler), ("crc-32", crc32), ("murmur3-32", murmur_fin), ("byte-sum", sum), ("byte-xor", xor), ("first-and-last-4-bytes", ends)]
+}
+
+/// Pairs of different decimal literals of equal length that collide under each weak key.
+fn colliding_literals(rng: &mut Rng, len: usize, per_hash: usize) -> Vec<(&'static str, String, String)> {
+    let hashes = weak_hashes();
+    let n = 220_000usize;
+    let mut strs: Vec<String> = Vec::with_capacity(n);
+    for _ in 0..n {
+        let mut s = String::with_capacity(len);
+        s.push((b'1' + rng.below(9) as u8) as char);
+        for _ in 1..len {
+            s.push((b'0' + rng.below(10) as u8) as char);
+        }
+        strs.push(s);
+    }
+    let mut out = Vec::new();
+    for (name, h) in hashes.iter() {
+        let mut seen: std::collections::HashMap<u32, usize> = std::collections::HashMap::with_capacity(n);
+        let mut found = 0;
+        for (i, s) in strs.iter().enumerate() {
+            let k = h(s.as_bytes());
+            if let Some(&j) = seen.get(&k) {
+                // different numbers (as doubles), not merely different spellings
+                let (a, b) = (strs[j].parse::<f64>().unwrap_or(0.0), s.parse::<f64>().unwrap_or(0.0));
+                if strs[j] != *s && a != b {
+                    out.push((*name, strs[j].clone(), s.clone()));
+                    found += 1;
+                    if found >= per_hash {
+                        break;
+                    }
+                }
+            } else {
+                seen.insert(k, i);
+            }
+        }
+    }
+    out
+}
+
+fn weak_key_histories(ctx: &mut Ctx) {
+    let lens = [16usize, 17, 20, 24, 32, 40, 64, 19];
+    let len = lens[(ctx.shard % lens.len() as u64) as usize];
+    let mut rng = Rng::from_parts(ctx.seed, "C17-weak-keys", ctx.shard);
+    let pairs = colliding_literals(&mut rng, len, if ctx.thorough() { 6 } else { 2 });
+    let mut by_hash: std::collections::BTreeMap<&str, u64> = std::collections::BTreeMap::new();
+    for (hname, a, b) in pairs.iter() {
+        *by_hash.entry(hname).or_insert(0) += 1;
+        // the two literals through every route by which a string becomes a number / a key / a piece
+        let templates: Vec<Box<dyn Fn(&str) -> (Value, Value)>> = vec![
+            Box::new(|s| (json!({"+": [s]}), Value::Null)),
+            Box::new(|s| (json!({"*": [s, 1]}), Value::Null)),
+            Box::new(|s| (json!({"==": [s, 1]}), Value::Null)),
+            Box::new(|s| (json!({"<": [s, "5e300"]}), Value::Null)),
+            Box::new(|s| (json!({"max": [s, 0]}), Value::Null)),
+            Box::new(|s| (json!({"+": [{"var": "s"}]}), json!({ "s": s }))),
+            Box::new(|s| (json!({"filter": [[1, 2, 3], {"<": [{"var": ""}, s]}]}), Value::Null)),
+            Box::new(|s| (json!({"-": [format!("  {}  ", s)]}), Value::Null)),
+            Box::new(|s| (json!({"var": [s, "D"]}), json!({ s: "V" }))),
+            Box::new(|s| (json!({"cat": [s, "|"]}), Value::Null)),
+            Box::new(|s| (json!({"in": [s, [s, 1]]}), Value::Null)),
+            Box::new(|s| (json!({"substr": [s, 3, 5]}), Value::Null)),
+            Box::new(|s| (json!({"missing": [s]}), json!({ s: 1 }))),
+        ];
+        for t in templates.iter() {
+            let (ra, da) = t(a);
+            let (rb, db) = t(b);
+            for (r, d) in [(&ra, &da), (&rb, &db), (&ra, &da), (&rb, &db), (&rb, &db), (&ra, &da)] {
+                let obs = ctx.observe(r, d);
+                let (mo, tr) = refsem::model(r, d);
+                ctx.judge("c17.weak-key-history", r, d, &obs, &mo, &tr);
+            }
+        }
+        ctx.mark_nontrivial_key(&format!("c17:weak-key:{}:{}:{}", hname, a, b));
+    }
+    ctx.cell("weak-key-adjacent-calls");
+    ctx.extra.insert("weak_key_pairs".into(), json!({"literal_length": len, "pairs_per_weak_key": by_hash}));
 }
